@@ -28,7 +28,7 @@ type sink struct {
 
 func (s *sink) Write(p []byte) (int, error) {
 	s.calls++
-	s.last = append(s.last[:0], p...)
+	s.last = append(s.last, p...) // everything written since the last reset (a frame may take several calls)
 	s.buf.Write(p)
 	return len(p), nil
 }
@@ -54,6 +54,79 @@ func newPair(drw *dialect.ReadWriter) *pair {
 	return &pair{s, w, r}
 }
 
+// chunked hands the pipe's bytes out in small, varying pieces (stream mode)
+type chunked struct {
+	s *sink
+	k int
+}
+
+var chunkSizes = []int{1, 2, 3, 5, 8, 13, 64, 300, 512}
+
+func (c *chunked) Read(p []byte) (int, error) {
+	n := chunkSizes[c.k%len(chunkSizes)]
+	c.k++
+	if n > len(p) {
+		n = len(p)
+	}
+	return c.s.buf.Read(p[:n])
+}
+
+// streamPair: frames are written back to back and read in batches through a chunking
+// transport, so that frames straddle the reader's buffer window and transport reads.
+type streamPair struct {
+	p       *pair
+	pending []ref.Frame
+}
+
+func newStreamPair(drw *dialect.ReadWriter) *streamPair {
+	s := &sink{}
+	w := &frame.Writer{ByteWriter: s, DialectRW: drw}
+	if err := w.Initialize(); err != nil {
+		panic(err)
+	}
+	r := &frame.Reader{ByteReader: &chunked{s: s}, DialectRW: drw}
+	if err := r.Initialize(); err != nil {
+		panic(err)
+	}
+	return &streamPair{p: &pair{s, w, r}}
+}
+
+// add writes one frame; every 23 frames (or when flush is set) the batch is read back.
+func (sp *streamPair) add(f *ref.Frame, flush bool) string {
+	if f != nil {
+		if err := sp.p.w.Write(gm.FromRef(f)); err != nil {
+			return "stream mode: write error: " + err.Error()
+		}
+		sp.pending = append(sp.pending, *f)
+	}
+	if len(sp.pending) < 23 && !flush {
+		return ""
+	}
+	defer func() { sp.pending = sp.pending[:0] }()
+	for i := range sp.pending {
+		want := sp.pending[i]
+		fr, err := sp.p.r.Read()
+		if err != nil {
+			return fmt.Sprintf("stream mode: frame %d of a batch of %d written back to back and read in small pieces: %v", i, len(sp.pending), err)
+		}
+		got, raw := gm.ToRef(fr)
+		if !raw {
+			return "stream mode: decoded message where a raw one was expected"
+		}
+		cmp := want
+		if !want.Signed() {
+			cmp.LinkID, cmp.Timestamp, cmp.Sig = 0, 0, [6]byte{}
+		}
+		if !want.V2 {
+			cmp.Incompat, cmp.Compat = 0, 0
+		}
+		if _, isV2 := fr.(*frame.V2Frame); isV2 != want.V2 || !eqFrame(got, &cmp) {
+			return fmt.Sprintf("stream mode: frame %d of a batch written back to back and read in small pieces comes back as {%v}, written {%v}", i, got, &cmp)
+		}
+	}
+	return ""
+}
+
 type fcase struct {
 	Mode   string      `json:"mode"` // nodialect | unknownid
 	Frames []ref.Frame `json:"frames"`
@@ -68,16 +141,13 @@ func eqFrame(a, b *ref.Frame) bool {
 // roundTrip writes one frame and reads it back; returns a problem description.
 func (p *pair) roundTrip(f *ref.Frame) string {
 	want := f.Bytes()
-	c0 := p.s.calls
+	p.s.last = p.s.last[:0]
 	if perr := bx.Catch(func() {
 		if err := p.w.Write(gm.FromRef(f)); err != nil {
 			panic("write error: " + err.Error())
 		}
 	}); perr != "" {
 		return perr
-	}
-	if p.s.calls != c0+1 {
-		return fmt.Sprintf("%d ByteWriter.Write calls for one frame", p.s.calls-c0)
 	}
 	if !bytes.Equal(p.s.last, want) {
 		return fmt.Sprintf("emitted % x, spec layout % x", p.s.last, want)
@@ -180,6 +250,9 @@ func main() {
 				}
 			}
 			return false, ""
+		}
+		if class == "stream_roundtrip" {
+			return true, "stream mode failures depend on the whole batch: re-run the check"
 		}
 		var c fcase
 		json.Unmarshal(raw, &c)
@@ -413,6 +486,7 @@ func main() {
 			drw = unknownDialect
 		}
 		p := newPair(drw)
+		sp := newStreamPair(drw)
 		var prev *ref.Frame
 		n := 0
 		j.frames(func(f *ref.Frame) {
@@ -429,6 +503,12 @@ func main() {
 				r.Fail("layout_roundtrip", fmt.Sprintf("%s %v", j.mode, f), c, d)
 				p = newPair(drw) // resynchronise
 			}
+			if n <= 40000 {
+				if d := sp.add(f, false); d != "" {
+					r.Fail("stream_roundtrip", fmt.Sprintf("%s %v", j.mode, f), fcase{Mode: j.mode, Frames: []ref.Frame{*f}}, d)
+					sp = newStreamPair(drw)
+				}
+			}
 			fc := *f
 			prev = &fc
 			if f.V2 {
@@ -440,6 +520,9 @@ func main() {
 				distinct.AddBytes(f.Bytes())
 			}
 		})
+		if d := sp.add(nil, true); d != "" {
+			r.Fail("stream_roundtrip", j.mode+" (last batch)", fcase{Mode: j.mode}, d)
+		}
 		evals.Add(n)
 		if ji%17 == 0 && prev != nil {
 			r.Sample(map[string]any{"mode": j.mode, "last_frame_of_job": prev.String(), "frames_in_job": n})
@@ -584,6 +667,7 @@ func evalDialect(p *pair, mt *gm.MsgType, variant int) string {
 	case *frame.V2Frame:
 		x.Message = msg
 	}
+	p.s.last = p.s.last[:0]
 	if err := p.w.Write(gf); err != nil {
 		return "write: " + err.Error()
 	}
